@@ -6,18 +6,17 @@ import F1Verif.Generated.Facts
 import F1Verif.Expected
 namespace F1.Props.FactsC16
 
+-- (active_Setup, active_Run, active_RecordDropped: re-proved semantically on the regenerated MiniGo programs, see Props/Refine*.lean)
+
 theorem fact_metrics_labelValues : F1.Generated.skel_metrics_labelValues = F1.Expected.skel_metrics_labelValues := by rfl
 theorem fact_metrics_labelKeys : F1.Generated.skel_metrics_labelKeys = F1.Expected.skel_metrics_labelKeys := by rfl
 theorem fact_metrics_sortedKeys : F1.Generated.skel_metrics_sortedKeys = F1.Expected.skel_metrics_sortedKeys := by rfl
 theorem fact_metrics_Reset : F1.Generated.skel_metrics_Reset = F1.Expected.skel_metrics_Reset := by rfl
 theorem fact_metrics_RecordIterationResult : F1.Generated.skel_metrics_RecordIterationResult = F1.Expected.skel_metrics_RecordIterationResult := by rfl
-theorem fact_active_Setup : F1.Generated.skel_active_Setup = F1.Expected.skel_active_Setup := by rfl
 theorem fact_metrics_build : F1.Generated.skel_metrics_build = F1.Expected.skel_metrics_build := by rfl
 theorem fact_metrics_NewInstance : F1.Generated.skel_metrics_NewInstance = F1.Expected.skel_metrics_NewInstance := by rfl
 theorem fact_metrics_RecordSetupResult : F1.Generated.skel_metrics_RecordSetupResult = F1.Expected.skel_metrics_RecordSetupResult := by rfl
 theorem fact_metrics_RecordIterationStage : F1.Generated.skel_metrics_RecordIterationStage = F1.Expected.skel_metrics_RecordIterationStage := by rfl
-theorem fact_active_Run : F1.Generated.skel_active_Run = F1.Expected.skel_active_Run := by rfl
-theorem fact_active_RecordDropped : F1.Generated.skel_active_RecordDropped = F1.Expected.skel_active_RecordDropped := by rfl
 theorem fact_run_Do : F1.Generated.skel_run_Do = F1.Expected.skel_run_Do := by rfl
 
 end F1.Props.FactsC16
